@@ -67,15 +67,32 @@ def run_login(run, rng, pv, order, threshold, terminal, server_id, auth,
     plugin_ids = {s: rng.choice((1, 7, 128, 300, 2 ** 21)) + i
                   for i, s in enumerate(x for x in order if x[0] == 'P')}
     chat_sizes = []
+    chat_gate = []
     w = {'pv': pv, 'order': list(order), 'threshold': threshold,
          'terminal': terminal[0], 'server_id': server_id, 'auth': auth,
          'user_handler': user_handler, 'codec': type(codec).__name__}
+    w['second_connection_of_object'] = False
 
     def note_frame(io, pid, payload, info):
         name, vals = codec.decode('login', pid, payload)
         return name, vals
 
+    # A quarter of the logins are the *second* connection of the object; the
+    # first one used encryption and compression, so that transport state
+    # surviving into the next connection would break the judged login.
+    prior = rng.random() < 0.25
+
+    def prior_handler(io):
+        scripts.read_handshake(io)
+        scripts.login_offline(io, pv, 5, codec, encrypted=True)
+        did, dp = codec.encode('play_disconnect', {'reason': '"first"'})
+        io.send_frame(did, dp)
+        io.half_close()
+        io.drain(5.0)
+
     def handler(io):
+        if prior and io.index == 0:
+            return prior_handler(io)
         hs = scripts.read_handshake(io)
         state['handshake'] = hs
         f = io.recv_frame()
@@ -221,6 +238,8 @@ def run_login(run, rng, pv, order, threshold, terminal, server_id, auth,
             from minecraft.networking.packets import clientbound, serverbound
 
             def on_success(_p):
+                if chat_gate:
+                    return
                 th = threshold if 'C' in order else 30
                 for size in (max(1, th - 1), max(1, th), th + 1):
                     # message length chosen so that id+len prefix+text == size
@@ -230,6 +249,22 @@ def run_login(run, rng, pv, order, threshold, terminal, server_id, auth,
                         message='c' * n))
             conn.register_packet_listener(
                 on_success, clientbound.login.LoginSuccessPacket)
+        if prior:
+            w['second_connection_of_object'] = True
+            if terminal[0] == 'success':
+                # the chat burst belongs to the judged session only
+                chat_gate.append(False)
+            conn.connect()
+            if not pc.wait_idle(conn, 25.0):
+                return 'first session: threads alive'
+            if rec.exceptions or rec.exits != 1:
+                return 'first session did not end cleanly: %r' % (
+                    rec.exceptions[:1],)
+            del rec.exceptions[:]
+            rec.exits = 0
+            del chat_gate[:]
+            run.count('logins.second_connection_of_object')
+        n_req0 = len(ygg.requests)
         conn.connect()
         if not pc.wait_idle(conn, 25.0):
             return 'threads alive: ' + pc.dump_threads()
